@@ -5,7 +5,9 @@
           proto.UdpStack over udp.SocketUdpNb over a datagram socket double (udping's `socket` replaced; no port bound):
           a *deep* graph (several passes and single services interleaved with queueing) and a *wide* graph (every queue
           up to the full size, every failure pattern of one pass).  After each step the packets still queued and the
-          datagrams the socket accepted are compared per destination.
+          datagrams the socket accepted are compared per destination.  GramStack and one UdpStack are built on queues the
+          caller supplies (txPkts=, rxPkts=, txMsgs=, rxMsgs=, as the constructor documents); Transmit(d, via) queues through
+          stack.transmit or by appending to the caller's own reference to that deque - one action of the specification.
 """
 from concurrent.futures import ThreadPoolExecutor
 
@@ -17,7 +19,8 @@ from ._netstacks import DestSocket, GramHandler, quiet_console, guarded
 
 SPEC_DIR = env.SPECS + "/net"
 LOCAL = ("127.0.0.1", 7100)
-FLAVORS = ("gram", "udp")
+FLAVORS = ("gram", "udp", "udp-own")   # gram / udp: built on queues supplied by the caller; udp-own: on its own queues
+WIDE_ONLY = ("udp-own",)
 ACTIONS = ["Transmit", "Pass", "Once"]
 
 
@@ -47,14 +50,18 @@ class GramAdapter:
         quiet_console()
         self.flavor = flavor
         self.undo = []
+        from collections import deque
+        # the documented way of sharing the queues: the caller supplies the deques and keeps its references
+        self.mine = None if flavor == "udp-own" else {k: deque() for k in ("txPkts", "rxPkts", "txMsgs", "rxMsgs")}
+        kw = dict(self.mine) if self.mine else {}
         if flavor == "gram":
             self.handler = GramHandler(LOCAL)
-            self.stack = stacking.GramStack(handler=self.handler, ha=LOCAL, name="gram")
+            self.stack = stacking.GramStack(handler=self.handler, ha=LOCAL, name="gram", **kw)
             self.sock = self.handler.sock
         else:
             fake = dn.FakeSocketModule(factory=lambda fam, typ, proto: DestSocket(name="udp", family=fam, type=typ, proto=proto))
             self.undo.append(dn.install(udping, "socket", fake))
-            self.stack = stacking.UdpStack(ha=LOCAL, name="udp")
+            self.stack = stacking.UdpStack(ha=LOCAL, name="udp", **kw)
             self.sock = fake.last
             if len(fake.created) != 1 or self.sock.bound != LOCAL:
                 raise AssertionError("UdpStack did not open exactly one datagram socket double on its address")
@@ -109,7 +116,12 @@ class GramAdapter:
             self.dst.append(d)
             i = len(self.dst)
             self.ids[payload(i)] = i
-            st.transmit(self.packeting.Packet(stack=st, packed=payload(i)), dest(d))
+            pkt = self.packeting.Packet(stack=st, packed=payload(i))
+            if str(args[1]) == "deque" and self.mine:
+                pkt.pack()
+                self.mine["txPkts"].append((pkt, dest(d)))     # through the caller's own reference to the shared queue
+            else:
+                st.transmit(pkt, dest(d))
         elif name == "Pass":
             f = args[0]
             fd = {int(k): int(v) for k, v in (f.items() if isinstance(f, dict) else enumerate(f, 1))}
@@ -177,6 +189,8 @@ def run_c35(ctx):
         paths = graph.edge_cover(g, max_len=40)
         traces = replay.graph_paths_to_traces(g, paths)
         for fl in FLAVORS:
+            if fl in WIDE_ONLY and tag != "wide":
+                continue
             k, divs = replay.replay("C35", traces, lambda init, fl=fl: guarded(GramAdapter)(fl), keys=("queue", "sent"))
             for dv in divs:
                 dv.where = "%s:%s" % (fl, dv.where)
@@ -184,7 +198,7 @@ def run_c35(ctx):
             nsteps += k
             total += g.nedges
             cov += graph.covered_edges(paths)
-        ctx.add_validated(len(traces) * len(FLAVORS), {"graph": tag, "path": [x[0] for x in traces[len(traces) // 2]][:20]})
+        ctx.add_validated(len(traces) * (len(FLAVORS) if tag == "wide" else len(FLAVORS) - len(WIDE_ONLY)), {"graph": tag, "path": [x[0] for x in traces[len(traces) // 2]][:20]})
     ctx.exhaustive = (cov == total and total > 0)
     ctx.extra.update({"graph_edges": total, "edges_replayed": cov, "distinct_nontrivial": cov, "evaluations": nsteps})
 
